@@ -10,7 +10,7 @@ CLAUSE_PROP = {"ShouldReject": "C31", "ShouldAccept": "C31", "RejectedFired": "C
                "Hang": "C12", "NoProgress": "C12", "Error": "C10", "Harness": "C10"}
 PROFILE = {
   "C10": dict(cancel=0.0, stop=0.0, tcaps=(50,), nsrc=(1, 4), stall=0.5, long=0.02),
-  "C11": dict(cancel=0.9, stop=0.0, tcaps=(50,), nsrc=(2, 4), stall=0.25),
+  "C11": dict(cancel=0.9, stop=0.0, tcaps=(50,), nsrc=(2, 4), stall=0.25, race=0.35),
   "C12": dict(cancel=0.2, stop=1.0, tcaps=(50,), nsrc=(1, 3), stall=0.25),
   "C31": dict(cancel=0.3, stop=0.0, tcaps=(1, 2, 3), nsrc=(3, 6), stall=0.2),
 }
@@ -54,8 +54,20 @@ def gen(rng, P):
       ops.append(["stop", nm])
     if rng.random() < 0.5:
       ops.append(["post", nm, "fifo", "A"])         # posted to a stopped object: must not be dispatched
+  drivers = {"d1": ops}
+  if rng.random() < P.get("race", 0.0):
+    # a second thread cancels by signal name at the very moment the first one starts a source of that name: whichever way the two
+    # calls are ordered, a cancel_events made after both have returned must silence that source for good
+    nm, k, sig = rng.choice(slots)
+    at = 0
+    for o in ops:
+      if o[0] == "tpost" and o[-1] == k:
+        break
+      at += o[1] if o[0] == "sleep" else 0
+    drivers["d2"] = [["wait_started", nm]] + ([["sleep", at]] if at else []) + [["cancels", nm, sig, rng.choice(["same", "rebuilt"])]]
+    ops += [["sleep", rng.randint(1, 2)], ["cancels", nm, sig, "same"]]
   ops.append(["sleep", H + 5])
-  return {"cap": 40, "tcap": rng.choice(P["tcaps"]), "aos": aos, "drivers": {"d1": ops}}
+  return {"cap": 40, "tcap": rng.choice(P["tcaps"]), "aos": aos, "drivers": drivers}
 
 
 def _work(args):
@@ -100,7 +112,9 @@ def check(prop):
     run.assumptions += ASSUME_B + ["virtual integer time; in most executions time advances only when no thread can run (maximal progress), in the others up to three "
                                    "injected delays of 1-4 time units hold a runnable thread back while the clock goes on (a slow thread): a post may then be "
                                    "late by at most the delays injected so far, never early; horizon %d" % H,
-                                   "cancel/stop calls come from one driver thread (or from the object's own handler)"]
+                                   "cancel/stop calls come from one driver thread (or from the object's own handler); in a third of the C11 executions a second "
+                                   "thread calls cancel_events while the first is starting a source of that name (either order of the two calls is accepted, "
+                                   "a later cancel_events must then silence the source)"]
     n = 1200 if tier == "quick" else 20000
     chunk = max(1, (n + 63) // 64)
     with mp.get_context("fork").Pool(16) as pool:
